@@ -178,7 +178,6 @@ theorem binInit_inv (hbin : ∀ i j, L.get i j ≤ 1) (hdiag : ∀ i, L.get i i 
         rw [hd] at this; simp only [Option.some.injEq] at this; omega
   constructor
   · simp
-  · intro i j; exact (wc_one i j).symm
   · intro i j
     by_cases hij : i = j
     · subst hij; simp [hdiag]
